@@ -152,6 +152,31 @@ def tr(e, fn):
             bs += b
             ts.append(t)
         return bs, "[" + "; ".join(ts) + "]", "list Z"
+    if isinstance(e, ast.Subscript) and isinstance(e.slice, ast.Slice):
+        # seq[a:b] (step 1 only; bounds optional, signed, clipped: never raises).  A slice of tensor.shape is a TUPLE: it
+        # can only be handed to list(.) (tuple + list raises TypeError in Python; every other use is outside the fragment)
+        if e.slice.step is not None and not (isinstance(e.slice.step, ast.Constant) and e.slice.step.value == 1):
+            raise Untranslatable("slice with a step")
+        base = is_shape_of(e.value, fn)
+        if base is not None:
+            bb, seq, tys = [], f"(py_shape B {base})", "tuple Z"
+        else:
+            bb, seq, tys = tr(e.value, fn)
+            if tys not in ("list Z", "tuple Z"):
+                raise Untranslatable("slice of a non-sequence")
+        bounds = []
+        for x in (e.slice.lower, e.slice.upper):
+            if x is None:
+                bounds.append("None")
+            else:
+                bx, tx, tyx = tr(x, fn)
+                if tyx != "Z":
+                    raise Untranslatable("slice bound that is not an int")
+                bb = bb + bx
+                bounds.append(f"(Some {tx})")
+        return bb, f"(py_slice {seq} {bounds[0]} {bounds[1]})", tys
+    if isinstance(e, ast.Attribute) and is_shape_of(e, fn):
+        return [], f"(py_shape B {is_shape_of(e, fn)})", "tuple Z"
     if isinstance(e, ast.Subscript):
         base = is_shape_of(e.value, fn)
         bi, ti, tyi = tr(e.slice, fn)
@@ -264,6 +289,8 @@ def tr_call(e, fn):
             if ty == "pyseq":                      # list(x) raises TypeError when x is an int
                 v = fn.fresh()
                 return b + [(v, f"(py_list {t})")], v, "list Z"
+            if ty == "tuple Z" and f.id == "list":
+                return b, t, "list Z"
             if ty != "list Z":
                 raise Untranslatable("list() of a non-sequence")
             return b, t, ty
